@@ -157,7 +157,7 @@ void adapter_exec(Ev *ev)
             bad += check_one(t, order, kind, w, lane, (b + 3) % 8, ~((uint64_t)1 << b) & mask);
         }
         uint64_t lim = (w == 16 || mode == 0) ? 65536 : (mode == 1 ? ((uint64_t)1 << 24) : ((uint64_t)1 << (w < 32 ? w : 32)));
-        for (uint64_t x = part * (lim / nparts), xe = (part + 1 == nparts) ? lim : (part + 1) * (lim / nparts); x < xe; x++, count++)
+        for (uint64_t x = part * (lim / nparts), xe = (part + 1 == nparts) ? lim : (part + 1) * (lim / nparts); x < xe; x++, count++, ((x & 0xfff) == 0 ? driver_kick() : (void)0))
             bad += check_one(t, order, kind, w, lane, (int)(x % 8), (x | (w > 16 ? (x << (w - 16)) : 0)) & mask);
         uint64_t r = 0x9E3779B97F4A7C15ull ^ ((uint64_t)kind << 40) ^ ((uint64_t)w << 20) ^ (uint64_t)order;
         for (int i = 0; i < 20000; i++, count++) {
